@@ -769,7 +769,7 @@ def suite_compare(chk, model):
                        for i, (r, l, pl) in enumerate(toks)]
             # small files for the whole-pipeline model runs (the extracted model works on unary
             # offsets: its cost grows fast with the length of the text)
-            for k in range(0, len(entries), 8):
+            for k in range(0, min(len(entries), 80), 8):
                 _, st, _, (rtx, ltx, lint) = run_compare_e2e(tmp, loc, entries[k:k + 8])
                 adapter_cases.append((loc, rtx, ltx))
                 adapter_impl.append([0, [st.get(key, 0) for key in SUMMARY_KEYS]])
